@@ -24,6 +24,29 @@ def fp_case(line):
     return "n=%d mode=%s prog=%s" % (f["n"], f["mode"], f["src"]) if f else line[:200]
 
 
+def gen_evm_forms(c):
+    """coq/gen/GenEvmForms.v: the erased instruction lists of the C20 forms as the compiler of the current tree emits them
+    (written by the harness, stream evmgen; rewritten only when the content changed)."""
+    exe = os.path.join(V.BUILD, "harness-c20")
+    tmp = os.path.join(V.BUILD, "GenEvmForms.v.new")
+    rc, out = V.sh([exe, "evmgen", "-out", tmp], env=V.go_env(), timeout=600)
+    if rc != 0 or not os.path.exists(tmp):
+        c.notes.append("evmgen failed: " + V.tail(out, 10))
+        return False
+    dst = os.path.join(V.COQ, "gen", "GenEvmForms.v")
+    os.makedirs(os.path.dirname(dst), exist_ok=True)
+    new = open(tmp).read()
+    if not os.path.exists(dst) or open(dst).read() != new:
+        open(dst, "w").write(new)
+    return True
+
+
+def build_debug_harness():
+    """second harness binary with the interpreter's own instruction trace compiled in (tags verif,gojq_debug):
+    gives the pc / an instruction-fetch counter independent of ctx.Done()"""
+    return V.build_harness("c20", tags="verif gojq_debug", out="harness-c20dbg")
+
+
 def run(tier, seed, extra=None):
     c = V.Check(PROP, tier, seed)
     c.assumptions += [
@@ -38,12 +61,18 @@ def run(tier, seed, extra=None):
         "coq/c01vm (other slice) is the concrete VM/compiler model for fragment F; the vmf stream ties it to the implementation for the "
         "forms of c20/VMForms.v: instruction list (VerifDumpCode) = compile(AST) = compile(the Coq term of the theorem), and the "
         "per-instruction sequence (len forks, stack depth, scope depth, len values) + emitted values of the implementation = the model's, exactly",
+        "c20/EVM.v (erased VM) is a hand transcription of execute.go's Next loop modulo data; tie to the implementation = stream evmtrace: "
+        "for each generated form and n in {0,1,2,5,9} (thorough: +23,64) EVERY instruction fetch of the implementation (pc, backtrack from "
+        "debug.go's trace; len forks, stack/scopes index, limit, len data, offset, len values from VerifFootprint) must be a path of the "
+        "nondeterministic machine from einit, and within the certified bound; the code in the line must equal the generated constant",
         "'tail position' = the self call is reached with no fork pending above the frame (hypothesis of tailcall_frame_reuse); forms whose "
         "call follows a pending choice point (try, ?, label, first(..), left of //, left of comma) are measured and recorded, not judged",
     ]
-    c.prove(PROPS)
     exe_h, hlog = V.build_harness("c20")
-    st_fp, st_stk, st_vmf, pend = {}, {}, {}, []
+    if exe_h is not None:
+        gen_evm_forms(c)       # before the proofs: props/C20.v is proved about the regenerated code
+    c.prove(PROPS)
+    st_fp, st_stk, st_vmf, st_evm, evm_bounds, pend = {}, {}, {}, {}, {}, []
     if exe_h is None:
         c.broken_correspondence("harness-build", None, V.tail(hlog, 40))
     else:
@@ -73,6 +102,37 @@ def run(tier, seed, extra=None):
                                             line[:600], verdict[:300])
                         else:
                             c.broken_correspondence("c20vmf", line[:1500], "c01vm VM / compile model verdict: " + verdict[:600])
+            # --- the erased VM (c20/EVM.v) against the implementation, instruction by instruction (fetch-tracing binary)
+            if not extra:
+                exe_d, dlog = build_debug_harness()
+                if exe_d is None:
+                    c.broken_correspondence("debug-harness-build", None, V.tail(dlog, 40))
+                else:
+                    rc, out, cases, st_evm = V.run_harness("c20dbg", "evmtrace", seed, 0, tier, name="c20evm")
+                    if rc != 0:
+                        c.broken_correspondence("harness-run evmtrace", None, V.tail(out, 40))
+                    else:
+                        for v in (st_evm.get("impl_violations") or [])[:5]:
+                            c.broken_correspondence("c20evm", None, v)
+                        for line, verdict in V.compare_model(c, exe_m, cases, "c20evm")[:10]:
+                            m = re.match(r"^\(evmtrace (\S+) ", line)
+                            if "exceeds-certified-bound" in verdict:
+                                c.failing_input("implementation footprint exceeds the bound certified for the compiled code of this form",
+                                                "evm form=%s %s" % (m.group(1) if m else "?", verdict), verdict)
+                            else:
+                                c.broken_correspondence("c20evm", "form=%s" % (m.group(1) if m else "?"),
+                                                        "erased VM verdict: " + verdict[:400] + " ; line: " + line[:300])
+                # certified bounds of the generated constants (evidence) and the precision check: growing forms are not certifiable
+                names = re.findall(r'\("(\w+)"%string, code_', open(os.path.join(V.COQ, "gen", "GenEvmForms.v")).read())
+                qf = os.path.join(V.BUILD, "cases", "c20evmbound.cases")
+                open(qf, "w").write("".join("(evmbound %s 1)\n" % n for n in names))
+                _, bounds = V.run_model(exe_m, qf)
+                evm_bounds = dict(zip(names, bounds))
+                for n, b in evm_bounds.items():
+                    if n.startswith("grow_") and b != "none":
+                        c.notes.append("precision: form %s (expected to grow) is now certified: %s" % (n, b))
+                    if not n.startswith("grow_") and not b.startswith("(bound"):
+                        c.broken_correspondence("c20evm", "form=%s" % n, "the generated code of this form is not certified bounded: " + b)
             # --- footprint at n and 8n
             ngen = 50 if tier == "quick" else 1500   # generated tail-recursive definitions
             rc, out, cases, st_fp = V.run_harness("c20", "fp", seed, ngen, tier, extra=extra, name="c20fp")
@@ -101,7 +161,7 @@ def run(tier, seed, extra=None):
             "definitions) + seeded generated tail-recursive definitions (guard form x step x nesting), each run at n and 8n with the peak "
             "footprint sampled at every instruction; stk: random operation sequences (3..72 ops, with and without pops of the empty stack); "
             "distinct = distinct case lines")
-    return c.finish(rule, extra_cov=dict(harness_stats_fp=st_fp, harness_stats_stk=st_stk, harness_stats_vmf=st_vmf,
+    return c.finish(rule, extra_cov=dict(harness_stats_fp=st_fp, harness_stats_stk=st_stk, harness_stats_vmf=st_vmf, harness_stats_evmtrace=st_evm, evm_certified_bounds=evm_bounds,
                                          informational_pending_choice_point_forms=pend))
 
 
